@@ -341,6 +341,8 @@ struct World
     bool exec_hostile_op(const Step& s);  // hostile.cpp
     void apply_setter(dj::track& t, int field, int slot, const dj::track_snapshot& donor,
                       bool use_value_overload);
+    void audit();  // audit.cpp (actor A)
+    std::set<int64_t> foreign_tracks;  // rows written by actor F with shapes the API cannot express
     void check_model(const FullObs& o);
     void check_name_lookups(const FullObs& o);
     std::map<int64_t, int64_t> free_elem;  // parent -> element whose position is free this step
